@@ -196,6 +196,9 @@ mod intpack;
 mod nfa_builder;
 mod serializer;
 mod utils;
+#[cfg(daachorse_verif)]
+#[doc(hidden)]
+pub mod verif_ticks;
 
 use core::num::NonZeroU32;
 
